@@ -23,17 +23,29 @@ Bool = BoolSort()
 Str = StringSort()
 
 NONE = Const("None", Ref)
+PY_TRUE = Const("True", Ref)      # the bool singletons seen as opaque attribute values
+PY_FALSE = Const("False", Ref)
 QA_INVALID = Const("Vertex._QA_NB_INVALID", Ref)   # the sentinel object of Vertex
 
 # uninterpreted list algebra
 cnt = Function("cnt", RSeq, Ref, Int)          # List.count
 rem1 = Function("rem1", RSeq, Ref, RSeq)       # List.erase   (list.remove)
 without = Function("without", RSeq, Ref, RSeq)  # List.filter (. != y)
-dedup = Function("dedup", RSeq, RSeq)          # first occurrences, order kept ([*dict.fromkeys(s)])
+dedup = Function("dedup", RSeq, RSeq)
+setnth = Function("setnth", RSeq, Int, Ref, RSeq)  # List.set (s[i] = x for 0 <= i < len s)          # first occurrences, order kept ([*dict.fromkeys(s)])
 
 cls_of = Function("cls", Ref, Cls)
 sub = Function("sub", Cls, Cls, Bool)          # reflexive-transitive subclass relation
 truthy = Function("truthy", Ref, Bool)          # bool(obj) for an arbitrary object (A4: unconstrained for instances)
+
+# `attributes=` dictionaries: an opaque reference with an abstract item list (A9: dict iteration order)
+ad_isdict = Function("ad_isdict", Ref, Bool)
+ad_len = Function("ad_len", Ref, Int)
+ad_key = Function("ad_key", Ref, Int, Str)
+ad_val = Function("ad_val", Ref, Int, Ref)
+# dictionary built from the first n items (snoc-recursive definition, unfolded by the loop invariant)
+ad_has_n = Function("ad_has_n", Ref, Int, Str, Bool)
+ad_val_n = Function("ad_val_n", Ref, Int, Str, Ref)
 
 _counter = itertools.count()
 
@@ -187,6 +199,11 @@ def Cnt(s, x):
     if _is_uf(s, without):                # count_filter_ne
         a, y = s.arg(0), s.arg(1)
         return ite(eq(x, y), IntVal(0), Cnt(a, x))
+    if _is_uf(s, dedup):                  # count_dedup
+        return b2i(Cnt(s.arg(0), x) >= 1)
+    if _is_uf(s, setnth):                 # count_set  (index in range: guaranteed where setnth is built)
+        a, i, y = s.arg(0), s.arg(1), s.arg(2)
+        return Cnt(a, x) - b2i(eq(Nth(a, i), x)) + b2i(eq(y, x))
     return cnt(s, x)                      # generic: cnt >= 0 added by saturate
 
 
@@ -207,6 +224,8 @@ def Len(s):
     if _is_uf(s, rem1):                   # length_erase
         a, y = s.arg(0), s.arg(1)
         return Len(a) - b2i(Cnt(a, y) >= 1)
+    if _is_uf(s, setnth):                 # length_set
+        return Len(s.arg(0))
     return Length(s)
 
 
@@ -238,37 +257,131 @@ def Without(s, y):
     return without(s, y)
 
 
+def Dedup(s):
+    """first occurrences, order kept  (List.dedup on the reversed list; [*dict.fromkeys(s)])"""
+    if _is_empty(s) or _is_unit(s):
+        return s
+    if _is_concat(s):
+        ch = s.children()
+        if _is_unit(ch[-1]):              # dedup_snoc
+            head, x = cat(*ch[:-1]), ch[-1].arg(0)
+            return ite(Cnt(head, x) >= 1, Dedup(head), cat(Dedup(head), ch[-1]))
+    if _is_ite(s):
+        return ite(s.arg(0), Dedup(s.arg(1)), Dedup(s.arg(2)))
+    return dedup(s)
+
+
 def Nth(s, i):
     """s[i] for 0 <= i < len(s) (callers guard the range)"""
     if isinstance(i, int):
-        if _is_unit(s) and i == 0:
+        iv = i
+        i = IntVal(i)
+    else:
+        iv = i.as_long() if z3.is_int_value(i) else None
+    if iv is not None:
+        if _is_unit(s) and iv == 0:
             return s.arg(0)
         if _is_concat(s):
             ch = s.children()
-            if all(_is_unit(c) for c in ch[: i + 1]) and i < len(ch):
-                return ch[i].arg(0)
-        if _is_ite(s):
-            return ite(s.arg(0), Nth(s.arg(1), i), Nth(s.arg(2), i))
-        i = IntVal(i)
+            if iv < len(ch) and all(_is_unit(c) for c in ch[: iv + 1]):
+                return ch[iv].arg(0)
+    if _is_ite(s):
+        return ite(s.arg(0), Nth(s.arg(1), i), Nth(s.arg(2), i))
+    if _is_uf(s, setnth):                 # getElem_set
+        a, j, y = s.arg(0), s.arg(1), s.arg(2)
+        return ite(eq(simplify_int(j), simplify_int(i)), y, Nth(a, i))
     return s[i]
 
 
-def SetNth(s, i: int, x):
-    """s with position i (python int 0 or 1) replaced by x; needs len(s) > i"""
-    # s = [s0, s1] ++ rest
+def simplify_int(i):
+    return z3.simplify(i) if not z3.is_int_value(i) else i
+
+
+def SetNth(s, i, x):
+    """s with position i replaced by x; needs 0 <= i < len(s) (callers guard the range)"""
+    if isinstance(i, int):
+        i = IntVal(i)
     if _is_ite(s):
         return ite(s.arg(0), SetNth(s.arg(1), i, x), SetNth(s.arg(2), i, x))
-    n = Len(s)
-    pre = z3.SubSeq(s, 0, i)
-    post = z3.SubSeq(s, i + 1, n - (i + 1))
-    if _is_concat(s):
+    if z3.is_int_value(i) and _is_concat(s):
+        n = i.as_long()
         ch = s.children()
-        if all(_is_unit(c) for c in ch[: i + 1]) and i < len(ch):
-            return cat(*ch[:i], Unit(x), *ch[i + 1:])
-    return cat(pre, Unit(x), post)
+        if n < len(ch) and all(_is_unit(c) for c in ch[: n + 1]):
+            return cat(*ch[:n], Unit(x), *ch[n + 1:])
+    if z3.is_int_value(i) and _is_unit(s) and i.as_long() == 0:
+        return Unit(x)
+    return setnth(s, i, x)
 
 
 # --- saturation: generic axioms of the uninterpreted symbols, instantiated at the terms of a query ----------------
+
+import ctypes
+from z3 import z3core as _c
+
+
+class Scanner:
+    """One-pass, incremental classification of the subterms of a growing set of formulas (raw C API: the Python
+    wrappers of z3 are too slow for the term sizes produced by explicit heap updates)."""
+
+    CATS = ("cnt", "rem1", "without", "dedup", "setnth", "sub", "nth", "ref")
+
+    def __init__(self):
+        self.ctx = z3.main_ctx()
+        self.cref = self.ctx.ref()
+        self.seen = set()
+        self.keep = []                      # keep the roots alive
+        self.ufid = {}
+        for name, f in (("cnt", cnt), ("rem1", rem1), ("without", without), ("dedup", dedup), ("setnth", setnth), ("sub", sub)):
+            self.ufid[_c.Z3_get_ast_id(self.cref, _c.Z3_func_decl_to_ast(self.cref, f.ast))] = name
+        self.ref_sort_id = _c.Z3_get_ast_id(self.cref, _c.Z3_sort_to_ast(self.cref, Ref.ast))
+
+    def add(self, formulas):
+        """walk the new formulas; return {category: [ExprRef]} and {fieldname: [arg tuples]} for nodes not seen before"""
+        c = self.cref
+        found = {k: [] for k in self.CATS}
+        fields = {}
+        stack = []
+        for f in formulas:
+            self.keep.append(f)
+            stack.append(f.as_ast())
+        seen = self.seen
+        while stack:
+            a = stack.pop()
+            aid = _c.Z3_get_ast_id(c, a)
+            if aid in seen:
+                continue
+            seen.add(aid)
+            k = _c.Z3_get_ast_kind(c, a)
+            if k == z3.Z3_QUANTIFIER_AST:
+                stack.append(_c.Z3_get_quantifier_body(c, a))
+                continue
+            if k != z3.Z3_APP_AST:
+                continue
+            app = _c.Z3_to_app(c, a)
+            n = _c.Z3_get_app_num_args(c, app)
+            for i in range(n):
+                stack.append(_c.Z3_get_app_arg(c, app, i))
+            d = _c.Z3_get_app_decl(c, app)
+            dk = _c.Z3_get_decl_kind(c, d)
+            cat = None
+            if dk == z3.Z3_OP_UNINTERPRETED:
+                did = _c.Z3_get_ast_id(c, _c.Z3_func_decl_to_ast(c, d))
+                cat = self.ufid.get(did)
+                if cat is None and n > 0:
+                    nm = _c.Z3_get_symbol_string(c, _c.Z3_get_decl_name(c, d)) if _c.Z3_get_symbol_kind(c, _c.Z3_get_decl_name(c, d)) == z3.Z3_STRING_SYMBOL else ""
+                    if "@" in nm:
+                        e = z3.ExprRef(a, self.ctx)
+                        fields.setdefault(nm.split("@", 1)[0], []).append(tuple(e.children()))
+            elif dk == z3.Z3_OP_SEQ_NTH:
+                cat = "nth"
+            if cat is not None:
+                found[cat].append(z3.z3._to_expr_ref(a, self.ctx))
+            if dk != z3.Z3_OP_ITE:
+                srt = _c.Z3_get_sort(c, a)
+                if _c.Z3_get_ast_id(c, _c.Z3_sort_to_ast(c, srt)) == self.ref_sort_id:
+                    found["ref"].append(z3.z3._to_expr_ref(a, self.ctx))
+        return found, fields
+
 
 def subterms(es):
     seen = {}
@@ -286,50 +399,47 @@ def subterms(es):
     return list(seen.values())
 
 
-def ref_terms(es):
-    """Ref-sorted ground subterms (instantiation universe), If-terms excluded"""
-    out = []
-    for t in subterms(es):
-        if is_app(t) and t.sort().eq(Ref) and not _is_ite(t) and not z3.is_var(t):
-            out.append(t)
-    return out
+def axioms_for(found, class_axioms, seen_cls):
+    """generic axiom instances for newly found terms"""
+    new = []
+    for t in found["cnt"]:
+        s = t.arg(0)
+        new.append(t >= 0)                                   # count_nonneg
+        new.append(t <= Length(s))                           # count_le_length
+    for t in found["rem1"]:
+        a, y = t.arg(0), t.arg(1)
+        new.append(Implies(Cnt(a, y) == 0, t == a))          # erase_of_not_mem
+        new.append(Length(t) == Length(a) - b2i(Cnt(a, y) >= 1))  # length_erase
+    for t in found["without"]:
+        a, y = t.arg(0), t.arg(1)
+        new.append(Implies(Cnt(a, y) == 0, t == a))          # filter_ne_of_not_mem
+        new.append(Length(t) == Length(a) - Cnt(a, y))       # length_filter_ne
+    for t in found["dedup"]:
+        new.append(Length(t) <= Length(t.arg(0)))
+    for t in found["setnth"]:
+        new.append(Length(t) == Length(t.arg(0)))
+    for t in found["sub"]:
+        c = t.arg(0)
+        ck = c.get_id()
+        if ck not in seen_cls:
+            seen_cls.add(ck)
+            new.extend(class_axioms(c))
+    for t in found["nth"]:
+        if t.sort().eq(Ref):                                 # getElem_mem
+            s, i = t.arg(0), t.arg(1)
+            new.append(Implies(And(i >= 0, i < Length(s)), Cnt(s, t) >= 1))
+    return new
 
 
 def saturate(formulas, class_axioms, rounds=3):
-    """Return ground axiom instances for cnt / rem1 / without / sub / SubSeq terms occurring in `formulas`."""
+    """ground axiom instances for the terms occurring in `formulas` (used by the cheap feasibility check)"""
+    sc = Scanner()
     out = []
-    seen = set()
+    seen_cls = set()
     work = list(formulas)
     for _ in range(rounds):
-        new = []
-        for t in subterms(work):
-            k = t.get_id()
-            if k in seen:
-                continue
-            seen.add(k)
-            if not is_app(t):
-                continue
-            if _is_uf(t, cnt):
-                s, x = t.arg(0), t.arg(1)
-                new.append(t >= 0)                                   # count_nonneg
-                new.append(t <= Length(s))                           # count_le_length
-            elif _is_uf(t, rem1):
-                a, y = t.arg(0), t.arg(1)
-                new.append(Implies(Cnt(a, y) == 0, t == a))          # erase_of_not_mem
-                new.append(Length(t) == Length(a) - b2i(Cnt(a, y) >= 1))  # length_erase
-            elif _is_uf(t, without):
-                a, y = t.arg(0), t.arg(1)
-                new.append(Implies(Cnt(a, y) == 0, t == a))          # filter_ne_of_not_mem
-                new.append(Length(t) == Length(a) - Cnt(a, y))       # length_filter_ne
-            elif _is_uf(t, dedup):
-                a = t.arg(0)
-                new.append(Length(t) <= Length(a))
-            elif _is_uf(t, sub):
-                c = t.arg(0)
-                ck = ("cls", c.get_id())
-                if ck not in seen:
-                    seen.add(ck)
-                    new.extend(class_axioms(c))
+        found, _fields = sc.add(work)
+        new = axioms_for(found, class_axioms, seen_cls)
         if not new:
             break
         out.extend(new)
